@@ -1,6 +1,10 @@
 package main
 
-import "fmt"
+import (
+	"fmt"
+	"go/ast"
+	"strings"
+)
 
 const (
 	commitlogGo = "server/commitlog/commitlog.go"
@@ -40,6 +44,24 @@ func genLog() *leanFile {
 	l.cmp("occBatchCmp", msgsetGo, "newMessageSetFromProto", "len(msgs) ? 1", 0, "gt")
 	l.cmp("entriesMinCmp", msgsetGo, "entriesForMessageSet", "len(ms) ? msgSetHeaderLen", 0, "le")
 	l.cmp("readerBeyondHWCmp", readerGo, "commitLog.newReaderCommitted", "offset ? hw", 0, "gt")
+	// newMessageSetFromProto: an encode error (header key longer than 32767 bytes) panics or is returned
+	encPanics := false
+	{
+		f := load(msgsetGo)
+		if fd := f.fn("newMessageSetFromProto"); fd != nil {
+			ast.Inspect(fd.Body, func(n ast.Node) bool {
+				if is, ok := n.(*ast.IfStmt); ok && is.Init == nil && nows(f.src(is.Cond)) == "err!=nil" && len(is.Body.List) > 0 &&
+					strings.HasPrefix(nows(f.src(is.Body.List[0])), "panic(") {
+					encPanics = true
+				}
+				return true
+			})
+		} else {
+			lost = append(lost, msgsetGo+":newMessageSetFromProto (function not found)")
+		}
+	}
+	l.def("encodeErrPanics", "Bool", fmt.Sprint(encPanics), "data, err := encode(m); if err != nil { panic(err) }")
+	l.cmp("putStringLenCmp", "server/commitlog/encoder.go", "lenEncoder.PutString", "len(in) ? math.MaxInt16", 0, "gt")
 	// getHWPos: when the message at the HW is no longer retained, the first entry after it is not committed
 	gone := anyHas(condTexts(readerGo, "getHWPos"), "hwEntry.Offset > hw")
 	l.def("hwGoneCheck", "Bool", fmt.Sprint(gone), "if hwEntry.Offset > hw { return hwIdx, hwEntry.Position, nil }")
